@@ -145,14 +145,18 @@ def select__id(self: XPathFunction, context: ta.ContextType = None) \
     elif context is None:
         raise self.missing_context()
 
+    # a node-set argument gives the IDs of the string-values of its nodes, any other
+    # argument is converted to a string; the string is a whitespace separated list of IDs
     value = self[0].evaluate(context)
+    idrefs = {x for v in (value if isinstance(value, list) else [value])
+              for x in self.string_value(v).split()}
     item = context.item
     if item is None:
         item = context.root
 
     if isinstance(item, (ElementNode, DocumentNode)):
         for element in item.iter_descendants():
-            if isinstance(element, EtreeElementNode) and element.value.get(XML_ID) == value:
+            if isinstance(element, EtreeElementNode) and element.value.get(XML_ID) in idrefs:
                 yield element
 
 
